@@ -21,6 +21,28 @@ pub struct DbcHeader {
     pub string_block_size: u32,
 }
 
+/// Basic validation of the record layout fields shared by all header versions:
+/// a table that has records cannot have empty records
+pub(crate) fn validate_record_layout(
+    record_count: u32,
+    field_count: u32,
+    record_size: u32,
+) -> Result<()> {
+    if record_size == 0 && record_count > 0 {
+        return Err(Error::InvalidHeader(
+            "Record size cannot be 0 if record count is greater than 0".to_string(),
+        ));
+    }
+
+    if field_count == 0 && record_count > 0 {
+        return Err(Error::InvalidHeader(
+            "Field count cannot be 0 if record count is greater than 0".to_string(),
+        ));
+    }
+
+    Ok(())
+}
+
 impl DbcHeader {
     /// The size of a DBC header in bytes
     pub const SIZE: usize = 20;
@@ -57,17 +79,7 @@ impl DbcHeader {
         let string_block_size = u32::from_le_bytes(buf);
 
         // Perform basic validation
-        if record_size == 0 && record_count > 0 {
-            return Err(Error::InvalidHeader(
-                "Record size cannot be 0 if record count is greater than 0".to_string(),
-            ));
-        }
-
-        if field_count == 0 && record_count > 0 {
-            return Err(Error::InvalidHeader(
-                "Field count cannot be 0 if record count is greater than 0".to_string(),
-            ));
-        }
+        validate_record_layout(record_count, field_count, record_size)?;
 
         Ok(Self {
             magic,
